@@ -103,7 +103,7 @@ func checkC08(c *Ctx) {
 	nInline := 0
 	var hevs []map[string]interface{}
 	for i := 0; i < n; i++ {
-		withData := i%3 == 2 // every third file has inline text / moves() in its bodies (no Refine case then)
+		withData := i%3 == 2 // every third file has inline text / moves() in its bodies
 		g := newFgen(r, FileCfg{Inline: withData, Ctl: GenCfg{MaxDepth: 2, MaxStmts: 2, MaxLeaves: 2, Switches: true}})
 		body := func(tag string) []Stmt {
 			var b []Stmt
@@ -226,7 +226,8 @@ func checkC08(c *Ctx) {
 				rec["entries"] = msEntriesRecord(t)
 				recs = append(recs, rec)
 			}
-			if !withData {
+			{
+				// (inline text / moves() arguments are resolved inside the product: Refine!TokMatch)
 				names, bodies := InlineScripts(f)
 				p := &Prog{}
 				for k := range names {
